@@ -148,6 +148,9 @@ def program_set(tier, seed, loop_else=False, globfns=True):
     if globfns:     # module-level functions called (and converted recursively, or run unconverted) from the function under test
         progs += mprun.random_programs(250 if quick else 1500, seed + 19, lo=2, hi=4, maxdepth=3, loop_else=loop_else, globfns=2,
                                        call_rate=0.3)
+    # the pure profile (ints, arithmetic, augmented and tuple assignment, counted loops, closures, attribute state): every
+    # input tuple over 0..IntMax is explored
+    progs += [mp.gen_pure(seed * 100003 + 70000 + i, maxdepth=3) for i in range(120 if quick else 800)]
     # very large random programs add cost, not shapes
     progs = [p for p in progs if len(p['nodes']) <= (60 if any(f['parent'] == 0 for f in p['fns'][1:]) else 45)]
     return progs, tlcs
